@@ -16,6 +16,7 @@ import (
 	"strings"
 	"sync"
 	"time"
+	"unicode/utf8"
 
 	"github.com/sirupsen/logrus"
 	"github.com/spf13/viper"
@@ -47,6 +48,9 @@ type c15Item struct {
 	body      string // hash of the body that carries it
 	service   string
 	dispatchN int
+	offender  bool     // carries a string that is not valid UTF-8 (tag, source or set member)
+	rawTags   []string
+	rawSource string
 }
 
 type c15Body struct {
@@ -79,7 +83,7 @@ func decodeBody(r *HTTPReq) (map[SeriesKey]*Obs, int) {
 
 func (c15) Run(e *Env) {
 	e.ProbeDecl("dispatcher-parked-across-flush-begin", "retry-after-5xx", "retry-after-conn-error", "retry-after-lost-response", "abandoned-after-window", "abandoned-retries-off",
-		"slow-response-client-timeout", "several-bodies-per-flush", "max-requests-saturated", "manual-flush", "ticker-flush", "flush-parked-after-drain", "4xx")
+		"slow-response-client-timeout", "several-bodies-per-flush", "max-requests-saturated", "manual-flush", "ticker-flush", "flush-parked-after-drain", "4xx", "non-utf8-string")
 	slots := e.Range(1, 4)
 	maxReq := e.Range(1, 4)
 	concMerge := e.Range(1, 3)
@@ -90,6 +94,8 @@ func (c15) Run(e *Env) {
 		nDyn = 0 // see DESIGN: with a coordinator every body notifies, and only one waiter exists per flush
 	}
 	compType := []string{"none", "zlib", "lz4"}[e.Draw(3)]
+	// separate run class: some clients send strings the parser accepts but protobuf cannot carry
+	nonUTF8 := e.Chance(1, 5)
 	flushInterval := time.Second
 	v := viper.New()
 	v.Set("http-transport.api-endpoint", "http://upstream")
@@ -177,7 +183,7 @@ func (c15) Run(e *Env) {
 	defer fab.Gate.Open(nil)
 	defer yg.gate.Open(nil)
 	defer cancel()
-	e.Event("cfg slots=%d maxreq=%d merge=%d window=%v manual=%v dyn=%v comp=%s dispatchers=%d yields=%v", slots, maxReq, concMerge, window, manual, dynNames, compType, nDisp, sortedStrKeys2(yg.sites))
+	e.Event("cfg slots=%d maxreq=%d merge=%d window=%v manual=%v dyn=%v comp=%s dispatchers=%d yields=%v nonutf8=%v", slots, maxReq, concMerge, window, manual, dynNames, compType, nDisp, sortedStrKeys2(yg.sites), nonUTF8)
 	e.Settle()
 	// Run() begins with a synchronous empty "nop" post; the consolidator's ticker only starts once it
 	// is through. Serve it straight away so that flush ticks are at t0 + k*interval.
@@ -192,6 +198,46 @@ func (c15) Run(e *Env) {
 	bodies := map[string]*c15Body{}
 	var bodyOrder []string
 	bitOwner := map[string]*c15Item{} // series|bit, series|value, series|member -> item
+	offenders := map[string]*c15Item{} // "v<value>" / "mx<id>" -> datapoint carrying a non-UTF-8 string
+	// a datapoint with a non-UTF-8 string cannot arrive byte for byte (proto3 strings are UTF-8); it is
+	// recognised by its run-unique value or member, under the same type and name, with every valid
+	// tag and a valid source unchanged, however the invalid bytes were rendered
+	offenderFor := func(k SeriesKey, o *Obs, id string) *c15Item {
+		var it *c15Item
+		if strings.HasPrefix(id, "v") {
+			it = offenders[id]
+		} else if strings.HasPrefix(id, "mx") {
+			j := 2
+			for j < len(id) && id[j] >= '0' && id[j] <= '9' {
+				j++
+			}
+			it = offenders[id[:j]]
+		}
+		if it == nil {
+			return nil
+		}
+		parts := strings.SplitN(string(k), "|", 4)
+		want := strings.SplitN(string(it.key), "|", 4)
+		if parts[0] != want[0] || parts[1] != want[1] || len(o.Tags) != len(it.rawTags) {
+			return nil
+		}
+		for _, t := range it.rawTags {
+			if !utf8.ValidString(t) {
+				continue
+			}
+			found := false
+			for _, g := range o.Tags {
+				found = found || g == t
+			}
+			if !found {
+				return nil
+			}
+		}
+		if utf8.ValidString(it.rawSource) && o.Source != it.rawSource {
+			return nil
+		}
+		return it
+	}
 	seqBits := map[string]int{}
 	reqSeen := 0
 	flushBegins := []uint64{} // event seq at which each flush was triggered
@@ -238,6 +284,9 @@ func (c15) Run(e *Env) {
 					o := obs[k]
 					own := func(id string) {
 						it := bitOwner[string(k)+"|"+id]
+						if it == nil {
+							it = offenderFor(k, o, id)
+						}
 						if it == nil {
 							e.Failf("C15/unknown-datapoint", "body %s carries %s %s which no client dispatched", b.hash, k, id)
 						}
@@ -316,7 +365,7 @@ func (c15) Run(e *Env) {
 		}
 		created, sent, retried, dropped, invalid := counters()
 		if invalid != 0 {
-			e.Failf("C15/invalid-counted", "%s: http.forwarder.invalid = %v for valid UTF-8 data", where, invalid)
+			e.Failf("C15/invalid-counted", "%s: http.forwarder.invalid = %v: a flush could not be turned into a request and was discarded as a whole (non-UTF-8 strings dispatched in this run: %v)", where, invalid, len(offenders) > 0)
 		}
 		nb, ns, nr := 0, 0, 0
 		for _, k := range bodyOrder {
@@ -422,6 +471,31 @@ func (c15) Run(e *Env) {
 					tags = append(tags, "team:x")
 				}
 				src := []string{"", "10.3.0.1"}[e.Draw(2)]
+				badMember := false
+				if nonUTF8 && e.Chance(1, 3) {
+					// what a statsd client can put on the wire and the parser passes on: a tag value, a host
+					// tag taken as source (ignore-host), or a set member with bytes that are not UTF-8
+					it.offender = true
+					if it.kind == "counter" {
+						it.kind = "timer"
+					}
+					bad := []string{"\xff", "caf\xe9", "\xc3\x28z", "a\x80b"}[e.Draw(4)]
+					switch e.Draw(3) {
+					case 0:
+						tags = append(tags, "zone:"+bad)
+					case 1:
+						src = "h" + bad
+					case 2:
+						if it.kind == "set" {
+							badMember = true
+						} else {
+							tags = append(tags, bad+":z")
+						}
+					}
+					e.Fault("non-utf8-string-dispatched")
+					e.Probe("non-utf8-string")
+				}
+				it.rawTags, it.rawSource = append([]string(nil), tags...), src
 				sk := it.kind + name + strings.Join(tags, ",") + src
 				if it.kind == "counter" && seqBits[sk] >= 50 {
 					it.kind = "timer"
@@ -438,8 +512,17 @@ func (c15) Run(e *Env) {
 					it.value = float64(nextID)
 					m.Type, m.Value = gostatsd.TIMER, it.value
 					bitOwner[string(it.key)+fmt.Sprintf("|v%g", it.value)] = it
+					if it.offender {
+						offenders[fmt.Sprintf("v%g", it.value)] = it
+					}
 				case "set":
 					it.member = fmt.Sprintf("x%d", nextID)
+					if it.offender {
+						offenders["m"+it.member] = it
+					}
+					if badMember {
+						it.member += "\xfe!"
+					}
 					m.Type, m.StringValue = gostatsd.SET, it.member
 					bitOwner[string(it.key)+"|m"+it.member] = it
 				}
@@ -459,7 +542,7 @@ func (c15) Run(e *Env) {
 			bmu.Unlock()
 			obs, _ := Snapshot(mm)
 			yg.names.Store(mm, fmt.Sprintf("%03d", dispatchN))
-			e.Event("dispatch %d on d%d: %s", dispatchN, d, CanonObs(obs))
+			e.Event("dispatch %d on d%d: %s", dispatchN, d, strings.ToValidUTF8(CanonObs(obs), "?"))
 			work[d] <- func() {
 				hfh.DispatchMetricMap(ctx, mm)
 				ret := e.NextSeq()
